@@ -121,6 +121,47 @@ func main() {
 				failed = true
 			}
 		}
+		// Update is an atomic read-modify-write: concurrent Updates of ONE key that derive the new value from the
+		// old one (a counter) lose nothing, also while other keys are set and the collection is serialised
+		{
+			cs := &catalog.Servers{}
+			cs.Set("@counter", &catalog.Server{Annotation: "0"})
+			ts := &catalog.Tags{}
+			ts.Set("@counter", &catalog.Tag{Title: "0"})
+			var wg3 sync.WaitGroup
+			const updaters, perUpdater = 8, 200
+			for w := 0; w < updaters; w++ {
+				wg3.Add(1)
+				go func(w int) {
+					defer wg3.Done()
+					for i := 0; i < perUpdater; i++ {
+						cs.Update("@counter", func(v *catalog.Server) *catalog.Server {
+							var n int
+							fmt.Sscanf(v.Annotation, "%d", &n)
+							return &catalog.Server{Annotation: fmt.Sprint(n + 1)}
+						})
+						ts.Update("@counter", func(v *catalog.Tag) *catalog.Tag {
+							var n int
+							fmt.Sscanf(v.Title, "%d", &n)
+							return &catalog.Tag{Title: fmt.Sprint(n + 1)}
+						})
+						if i%16 == 0 {
+							cs.Set(fmt.Sprintf("@other%d_%d", w, i), &catalog.Server{})
+							_, _ = json.Marshal(cs)
+						}
+					}
+				}(w)
+			}
+			wg3.Wait()
+			if got := cs.GetValue("@counter").Annotation; got != fmt.Sprint(updaters*perUpdater) {
+				fmt.Println("FAIL lost update: Servers.Update of one key from", updaters, "goroutines counted", got, "of", updaters*perUpdater)
+				failed = true
+			}
+			if got := ts.GetValue("@counter").Title; got != fmt.Sprint(updaters*perUpdater) {
+				fmt.Println("FAIL lost update: Tags.Update of one key from", updaters, "goroutines counted", got, "of", updaters*perUpdater)
+				failed = true
+			}
+		}
 		set := catalog.NewStringSet()
 		var wg2 sync.WaitGroup
 		for w := 0; w < 8; w++ {
